@@ -4,6 +4,7 @@ open StarsimModel.C01
 #print axioms C01_twin
 #print axioms C01_reader_counterexample
 #print axioms C01_readers_are_known
+#print axioms C01_no_shared_mutable_state
 #print axioms C01_writes_are_reseeding
 #print axioms C01_seed_expressions
 #print axioms C01_seed_formula
